@@ -79,6 +79,21 @@ class C19(Prop):
                 evs = base[:cut] + [["unsub"]] + base[cut:] + [["adv", "5"], ["run"]]
                 out.append(Case("time", "local", [("pipe", [src])], evs, {"kind": "cancel-phase"}))
         out = tg.with_units(seed, out)
+        # is_closed() asked from ANOTHER OS thread while a task of the subscription is delivering (event `rq <event>`): the
+        # query either waits for the handle's cell or sees the state before the poll — it must never answer `closed` for a
+        # subscription that delivers afterwards (seed C19-8: try_lock, "busy" answered as closed)
+        for src in (["interval", "2"], ["intervalat", "1", "2"], ["delay", "2", ["hot", "0"]], ["observeon", ["hot", "0"]],
+                    ["delay", "0", ["interval", "2"]], ["map", "add1", ["interval", "2"]],
+                    ["buftime", "3", ["hot", "0"]], ["debounce", "2", ["hot", "0"]]):
+            hot = "hot" in str(src)
+            feed = [["emit", "0", ["n", "1"]], ["emit", "0", ["n", "2"]]] if hot else []
+            for pre in ([["adv", "2"]], [["adv", "2"], ["run"], ["adv", "2"]], [["adv", "4"]]):
+                for racer in (["rq", "run"], ["rq", "poll", "0"]):
+                    for post in ([["adv", "2"], ["run"]], [["adv", "2"], ["run"], ["unsub"], ["adv", "2"], ["run"]],
+                                 [["emit", "0", ["n", "3"]], ["adv", "3"], ["run"]] if hot else [["adv", "6"], ["run"]]):
+                        fire = [["fire", "0"]] if racer[1] == "poll" else []
+                        evs = [["sub"]] + feed + pre + fire + [racer] + [["q", "closed"]] + post + [["q", "closed"]]
+                        out.append(Case("time", "threads", [("pipe", [src])], evs, {"kind": "race-closed"}))
         # cancellation racing the executor / an emitter on two real OS threads (suite `coop`, see C02):
         # a cancelled task stays cancelled, nothing runs after `unsubscribe()` has returned
         from .. import coopgen as cg
@@ -93,7 +108,9 @@ class C19(Prop):
 
     def project(self, body):
         from .c10 import strip_lock
-        return strip_lock(body)
+        import re
+        # the answer given to another thread in the middle of an event is not part of the sequential model
+        return re.sub(r" rclosed=[01?-]", " rclosed=?", strip_lock(body))
 
     def oracle(self, case, lines, model_lines=None):
         if case.suite == "coop":
@@ -101,6 +118,7 @@ class C19(Prop):
             return cg.oracle(case, lines)
         pipe = case.field("pipe")[0]
         unsub = False
+        rclosed = None
         f = handle_section_failure(case, lines)
         if f:
             return f
@@ -113,6 +131,11 @@ class C19(Prop):
             if not b.startswith("o="):
                 continue
             outs, kv = tg.parse_suffix(strip_l(b))
+            if rclosed is not None and outs:
+                return {"kind": "closed-then-delivered", "event": k,
+                        "detail": f"is_closed() answered true to another thread during event {rclosed}; later: {b}"}
+            if kv.get("rclosed") == 1 and not unsub:
+                rclosed = k
             if e[0] == "unsub":
                 unsub = True
                 if outs:
